@@ -635,6 +635,46 @@ class BuiltinMixin:
     def on_list_insert(self, a, idx, v):
         pass
 
+    def m_list_insert(self, recv, args, kw, n):
+        """L.insert(i, x): i is clamped to [0, len] (negative indices count from the end); the elements
+        from i on move up by one.  The new element row is a lambda over the old row (exact)."""
+        a = self.as_addr(recv)
+        ln = self.hread("llen", (a,))
+        i0 = self.as_int(args[0])
+        i1 = z3.If(i0 < 0, i0 + ln, i0)
+        i = z3.simplify(z3.If(i1 < 0, 0, z3.If(i1 > ln, ln, i1)))
+        v = self.to_val(args[1])
+        oldrow = z3.Select(self.heap.cur["lelem"], a)
+        q = fresh("ins_q", core.IntS)
+        newrow = z3.Lambda([q], z3.If(q < i, z3.Select(oldrow, q), z3.If(q == i, v, z3.Select(oldrow, q - 1))))
+        self.heap = self.heap.with_array("lelem", z3.Store(self.heap.cur["lelem"], a, newrow)).store(
+            "llen", (a,), z3.simplify(ln + 1))
+        self.list_mutated(a)
+        key = str(z3.simplify(a))
+        self.shape.pop(key, None)
+        return tv_none()
+
+    def bi_bisect_bisect_right(self, args, kw, n, frame):
+        """bisect.bisect_right(L, x) for a list of ints: the result r satisfies 0 <= r <= len(L), and - when
+        L is sorted, which is the precondition bisect needs to mean anything - every element before r is
+        <= x and every element from r on is > x (T-PY: bisect's documented postcondition)."""
+        lst = args[0]
+        a = self.as_addr(lst)
+        ln = self.hread("llen", (a,))
+        row = z3.Select(self.heap.cur["lelem"], a)
+        x = self.as_int(args[1])
+        r = fresh("bisect", core.IntS)
+        j, k = fresh("bj", core.IntS), fresh("bk", core.IntS)
+        srt = z3.ForAll([j, k], z3.Implies(z3.And(0 <= j, j < k, k < ln),
+                                           Val.i(z3.Select(row, j)) <= Val.i(z3.Select(row, k))))
+        self.assume(z3.And(0 <= r, r <= ln))
+        self.assume(z3.Implies(srt, z3.And(
+            z3.ForAll([j], z3.Implies(z3.And(0 <= j, j < r), Val.i(z3.Select(row, j)) <= x)),
+            z3.ForAll([j], z3.Implies(z3.And(r <= j, j < ln), Val.i(z3.Select(row, j)) > x)))))
+        return TV("int", r)
+
+    bi_bisect_right = bi_bisect_bisect_right
+
     def m_list_pop(self, recv, args, kw, n):
         a = self.as_addr(recv)
         ln = self.hread("llen", (a,))
